@@ -324,13 +324,21 @@ func GenSession(prop string, seed uint64, thorough bool) *Scenario {
 		}
 		if c.Transport == "polling" && g.p(p.pJSONP) {
 			c.JSONP, c.B64, c.J = true, true, fmt.Sprint(g.IntN(20))
+			if g.p(0.35) {
+				// what a request can put into j: the response's index is the decimal digits of it, whatever else it holds
+				c.J = g.picks("007", "1a2", "12x34", "0);alert(1);//", "a1", "1a", "3.5", "-1", "1 2", "0]()[1", "9e9", "١٢")
+			}
 		}
 		if g.p(0.5) {
 			c.AcceptEnc = g.picks("gzip", "deflate", "br", "zstd", "gzip, deflate, br", "identity", "gzip;q=1.0, br;q=0.5",
 				"vibrant", "x-gzipped", "notzstd, identity", "br;q=0", "GZIP", "deflate , zstd;q=0.2")
 		}
+		if c.AcceptEnc != "" && c.Transport == "polling" && g.p(0.25) {
+			// the client's data requests name other codings than its polls (a response is negotiated with the request it answers)
+			c.AcceptEncPost = g.picks("br", "zstd", "gzip", "deflate", "identity", "zstd, br")
+		}
 		if o.Cors != nil || g.p(0.2) {
-			c.Origin = g.picks("http://a.test", "http://b.test", "http://c.test")
+			c.Origin = g.picks("http://a.test", "http://b.test", "http://c.test", "http://evil.test")
 		}
 		// network: keep the fault-free budget  pongDelay + pollGap + 6*lat  well inside pingTimeout
 		budget := pt / 2
